@@ -207,7 +207,7 @@ Theorem C05_lint_escapes_unless_all_ok : forall has_ref read_ref parse_ref read 
 Proof. exact lint_skeleton_all_ok. Qed.
 
 (* ---- merge(): the sort of the skips of a strings.xml comparison (finding D9) ------------- *)
-(* n error-level check results on shared strings and j junk entries while merging:
+(* n shared strings with an error-level check result and j junk entries while merging:
    the sort raises TypeError exactly when there are at least two skips and at least
    one of them is an entity (its span is (None, None)) *)
 Theorem C05_android_skips_sort : forall n j,
